@@ -325,7 +325,7 @@ theorem constants_match_source :
         && !Generated.nameVerbatimExcept.contains n)) ∧
     ((List.range 256).filter (fun n => PdfLex.isDelimiter (UInt8.ofNat n)) = Generated.lexDelimiters) := by
   refine ⟨?_, ?_⟩
-  · decide +kernel
-  · decide +kernel
+  · first | decide +kernel | fail "constants_match_source (C04): the model's PdfLex.nameVerbatim does not match the source (Generated.nameVerbatimExcept, Generated.nameVerbatimHi, Generated.nameVerbatimLo, re-extracted from pdf/src)"
+  · first | decide +kernel | fail "constants_match_source (C04): the model's PdfLex.isDelimiter does not match the source (Generated.lexDelimiters, re-extracted from pdf/src)"
 
 end C04
